@@ -695,6 +695,10 @@ def run(prog, rep, tier):
     rep.rule('HCFLAG-mpo', 'every MPO method that builds another MPO from the W tensors hands on '
              'explicit_plus_hc (a segment / copy without it is half of the Hamiltonian)')
     check_hcflag_mpo(prog, rep)
+    rep.rule('PARAM-explicit-kept', 'an explicitly given op_string is never replaced (assignments '
+             'only under `op_string is None`)')
+    if check_explicit_op_string(prog, rep) < 3:
+        raise AnalysisError('PARAM-explicit-kept: fewer than 3 assignments to op_string')
     rep.rule('EXPORT-op-string', 'consumers of CouplingTerms.to_TermList() (operator strings dropped) '
              'do not put the identity between the operators')
     check_export_op_string(prog, rep)
@@ -770,3 +774,36 @@ def check_export_op_string(prog, rep):
                           'fermionic couplings of range >= 2 the Jordan-Wigner string is missing, '
                           'the exported matrix is not the operator of the MPO' % q, f.lineno)
     return max(n, 1)
+
+
+# ------------------------------------------------------------------ PARAM-explicit-kept
+def check_explicit_op_string(prog, rep):
+    """PARAM-explicit-kept: `op_string=None` means "determine the string from the Jordan-Wigner
+    needs of the operators"; any other value is the caller's choice. In the functions of terms.py /
+    model.py that take `op_string`, every assignment to that parameter sits under the condition
+    `op_string is None` (sibling agreement of the two-site and the multi-site handler)."""
+    from ..pattern import guards_of
+    n = 0
+    for rel in ('tenpy/networks/terms.py', 'tenpy/models/model.py'):
+        m = prog.module(rel)
+        for q, f in m.functions.items():
+            if 'op_string' not in params(f):
+                continue
+            for st in stmts_of(f):
+                if not (isinstance(st, ast.Assign) and any(
+                        isinstance(t, ast.Name) and t.id == 'op_string' for t in st.targets)):
+                    continue
+                if any(isinstance(x, ast.Name) and x.id == 'op_string' for x in ast.walk(st.value)):
+                    continue      # re-packaging of the given value (`[op_string] * n`)
+                n += 1
+                gs = {(t, p) for t, p, _ in guards_of(f, st)}
+                ok = ('op_string is None', True) in gs or ('op_string is not None', False) in gs \
+                    or any(p and 'op_string is None' in t for t, p in gs)
+                rep.instance('PARAM-explicit-kept', {'function': q, 'assign': key_text(st)[:50],
+                                                     'only_for_default': ok})
+                if not ok:
+                    rep.violation('PARAM-explicit-kept', m, q, 'overrides-explicit:op_string',
+                                  '`%s` replaces `op_string` also when the caller gave one '
+                                  '(conditions here: %s): the explicit string of the coupling is '
+                                  'silently dropped' % (key_text(st)[:50], sorted(gs)), st.lineno)
+    return n
